@@ -19,9 +19,25 @@ def diff(t, x):
             cache[u] = r
         return r
 
+    dep = {}
+
+    def depends(u):
+        r = dep.get(u)
+        if r is None:
+            if u is x:
+                r = True
+            elif u.op in ('const', 'var', 'sel') and u is not x:
+                r = any(depends(a) for a in u.args if isinstance(a, T)) if u.op == 'sel' else False
+            else:
+                r = any(depends(a) for a in u.args if isinstance(a, T))
+            dep[u] = r
+        return r
+
     def _d(u):
         if u is x:
             return tm.ONE
+        if not depends(u):
+            return tm.ZERO
         op, a = u.op, u.args
         if op in ('const', 'var', 'sel'):
             return tm.ZERO
